@@ -582,6 +582,12 @@ class Ctx:
             return True
         if z3.is_false(cond):
             return False
+        # a condition this path has already decided keeps its answer (the path condition only grows): no query, no new decision -
+        # a polling loop that asks the same question every millisecond costs nothing after the first time
+        memo = self.__dict__.setdefault("_decided", {})
+        hit = memo.get(cond.get_id())
+        if hit is not None:
+            return hit[1]
         i = len(self.path)
         if i >= self.MAX_DEPTH:
             raise Abort("budget", "decision depth limit")
@@ -593,6 +599,7 @@ class Ctx:
             self.path.append(("b", v, fp))
             self.add(cond if v else z3.Not(cond))
             self.model = None
+            memo[cond.get_id()] = (cond, v)
             return v
         m = self.ensure_model()
         v = z3.is_true(m.eval(cond, model_completion=True))
@@ -606,6 +613,7 @@ class Ctx:
             raise Abort("unknown", "solver returned unknown at a branch")
         self.path.append(("b", v, fp))
         self.add(cond if v else z3.Not(cond))
+        memo[cond.get_id()] = (cond, v)
         return v
 
     def concretize(self, term) -> int:
